@@ -57,6 +57,9 @@ def main(tier, replay=None):
     seed = core.seed_from_env()
     t0 = time.time()
     exe, ext = build.build_cli()
+    locpath = build.build_locale()
+    if locpath:
+        core.ENV["VERIF_LOCPATH"] = locpath
     if replay:
         with open(replay) as f:
             rep = json.load(f)
